@@ -105,59 +105,52 @@ Qed.
 
 (* F1: every keyword of the Rust Reference is escaped by the compiler's table, or cannot be written
        in Incan at all, or is one of the names Rust cannot express (Self) *)
-Definition spec_covered_b : bool :=
-  forallb (fun k => mem k RUST_KEYWORDS || mem k INCAN_KEYWORDS || mem k NOT_RAW) RUST_SPEC_KEYWORDS.
-Lemma spec_covered : spec_covered_b = true.
+Lemma spec_covered :
+  forallb (fun k => mem k RUST_KEYWORDS || mem k INCAN_KEYWORDS || mem k NOT_RAW) RUST_SPEC_KEYWORDS = true.
 Proof. vm_compute; reflexivity. Qed.
 
 (* F2: every entry of the compiler's table that can be written in Incan and is rawable is emitted as
        a valid Rust identifier that denotes it *)
-Definition table_escaped_ok_b : bool :=
+Lemma table_escaped_ok :
   forallb (fun k => implb (legal_incan_ident k && negb (mem k NOT_RAW))
                           (valid_rust_ident (gen_escape_keyword k) && name_eqb (denotes (gen_escape_keyword k)) k))
-          RUST_KEYWORDS.
-Lemma table_escaped_ok : table_escaped_ok_b = true.
+          RUST_KEYWORDS = true.
 Proof. vm_compute; reflexivity. Qed.
 
 (* F2': ... and, rawable or not, denotes the same name *)
-Definition table_denotes_b : bool :=
-  forallb (fun k => implb (legal_incan_ident k) (name_eqb (denotes (gen_escape_keyword k)) k)) RUST_KEYWORDS.
-Lemma table_denotes : table_denotes_b = true.
+Lemma table_denotes :
+  forallb (fun k => implb (legal_incan_ident k) (name_eqb (denotes (gen_escape_keyword k)) k)) RUST_KEYWORDS = true.
 Proof. vm_compute; reflexivity. Qed.
 
 (* F3: no Rust keyword starts with an underscore *)
-Definition no_keyword_starts_with_underscore_b : bool :=
-  forallb (fun k => match k with c :: _ => negb (c =? 95) | [] => true end) RUST_SPEC_KEYWORDS.
-Lemma no_keyword_starts_with_underscore : no_keyword_starts_with_underscore_b = true.
+Lemma no_keyword_starts_with_underscore :
+  forallb (fun k => match k with c :: _ => negb (c =? 95) | [] => true end) RUST_SPEC_KEYWORDS = true.
 Proof. vm_compute; reflexivity. Qed.
 
 (* F4: escaping a table entry never produces one of the fixed names *)
-Definition table_no_new_collision_b : bool :=
+Lemma table_no_new_collision :
   forallb (fun k => implb (legal_incan_ident k)
-                          (implb (mem (gen_escape_keyword k) FIXED_NAMES) (mem k FIXED_NAMES))) RUST_KEYWORDS.
-Lemma table_no_new_collision : table_no_new_collision_b = true.
+                          (implb (mem (gen_escape_keyword k) FIXED_NAMES) (mem k FIXED_NAMES))) RUST_KEYWORDS = true.
 Proof. vm_compute; reflexivity. Qed.
 
 (* F5: every site of the generated table has one of the three understood shapes *)
-Definition sites_understood_b : bool := forallb understood_site SITES.
-Lemma sites_understood : sites_understood_b = true.
+Lemma sites_understood :
+  forallb understood_site SITES = true.
 Proof. vm_compute; reflexivity. Qed.
 
 (* F6: at every unescaped site, every Rust keyword Incan does not reserve is a legal Incan name whose
        emitted identifier Rust rejects *)
-Definition unescaped_refuted_b : bool :=
+Lemma unescaped_refuted_table :
   forallb (fun s => implb (unescaped_site s)
      (forallb (fun k => legal_incan_ident k && negb (valid_rust_ident (emit_ident s k))) UNRESERVED_RUST_KEYWORDS))
-     SITES.
-Lemma unescaped_refuted_table : unescaped_refuted_b = true.
+     SITES = true.
 Proof. vm_compute; reflexivity. Qed.
 
 (* F7: the not-rawable legal names are rejected by Rust at every escaped or unescaped site *)
-Definition not_rawable_refuted_b : bool :=
+Lemma not_rawable_refuted_table :
   forallb (fun s => implb (escaped_site s || unescaped_site s)
      (forallb (fun k => legal_incan_ident k && negb (valid_rust_ident (emit_ident s k))) NOT_RAWABLE_LEGAL))
-     SITES.
-Lemma not_rawable_refuted_table : not_rawable_refuted_b = true.
+     SITES = true.
 Proof. vm_compute; reflexivity. Qed.
 
 (* ------------------------------------------------------------------ escape_keyword on an arbitrary name *)
@@ -175,7 +168,7 @@ Lemma spec_keyword_excluded : forall n, legal_incan_ident n = true -> gen_is_rus
   mem n NOT_RAW = false -> mem n RUST_SPEC_KEYWORDS = false.
 Proof.
   intros n Hl Hk Hnr. destruct (mem n RUST_SPEC_KEYWORDS) eqn:E; [|reflexivity]. exfalso.
-  apply mem_In in E. pose proof spec_covered as F. unfold spec_covered_b in F.
+  apply mem_In in E. pose proof spec_covered as F.
   rewrite forallb_forall in F. specialize (F n E).
   destruct (legal_shape n Hl) as (_ & _ & _ & _ & _ & Hik).
   unfold gen_is_rust_keyword in Hk. unfold gen_keyword_id_is_some in Hik.
@@ -187,7 +180,7 @@ Lemma escape_safe : forall n, legal_incan_ident n = true -> Known_C13_not_rawabl
 Proof.
   intros n Hl Hnk. unfold Known_C13_not_rawable in Hnk. rewrite Hl, andb_true_r in Hnk.
   destruct (gen_is_rust_keyword n) eqn:Hk.
-  - pose proof table_escaped_ok as F. unfold table_escaped_ok_b in F. rewrite forallb_forall in F.
+  - pose proof table_escaped_ok as F. rewrite forallb_forall in F.
     unfold gen_is_rust_keyword in Hk. apply mem_In in Hk. specialize (F n Hk).
     rewrite Hl, Hnk in F. simpl in F. apply andb_true_iff in F. destruct F as [F1 F2].
     split; [exact F1 | now apply name_eqb_eq].
@@ -200,7 +193,7 @@ Qed.
 Lemma escape_denotes : forall n, legal_incan_ident n = true -> denotes (gen_escape_keyword n) = n.
 Proof.
   intros n Hl. destruct (gen_is_rust_keyword n) eqn:Hk.
-  - pose proof table_denotes as F. unfold table_denotes_b in F. rewrite forallb_forall in F.
+  - pose proof table_denotes as F. rewrite forallb_forall in F.
     unfold gen_is_rust_keyword in Hk. apply mem_In in Hk. specialize (F n Hk).
     rewrite Hl in F. simpl in F. now apply name_eqb_eq.
   - rewrite (escape_off_table n Hk). unfold denotes. now rewrite (legal_not_raw_syntax n Hl).
@@ -216,7 +209,7 @@ Lemma escape_no_new_collision : forall n, legal_incan_ident n = true ->
   mem (gen_escape_keyword n) FIXED_NAMES = true -> mem n FIXED_NAMES = true.
 Proof.
   intros n Hl Hm. destruct (gen_is_rust_keyword n) eqn:Hk.
-  - pose proof table_no_new_collision as F. unfold table_no_new_collision_b in F. rewrite forallb_forall in F.
+  - pose proof table_no_new_collision as F. rewrite forallb_forall in F.
     unfold gen_is_rust_keyword in Hk. apply mem_In in Hk. specialize (F n Hk).
     rewrite Hl, Hm in F. cbn [implb] in F. exact F.
   - now rewrite (escape_off_table n Hk) in Hm.
@@ -265,7 +258,7 @@ Proof.
     unfold rust_ident_or_keyword. rewrite Hall, Hne. vm_compute. reflexivity.
   - apply negb_true_iff. destruct (mem (95 :: r ++ n) RUST_SPEC_KEYWORDS) eqn:E; [|reflexivity]. exfalso.
     apply mem_In in E. pose proof no_keyword_starts_with_underscore as F.
-    unfold no_keyword_starts_with_underscore_b in F. rewrite forallb_forall in F. specialize (F _ E).
+    rewrite forallb_forall in F. specialize (F _ E).
     simpl in F. discriminate.
 Qed.
 
@@ -311,6 +304,15 @@ Proof.
   intros s' Hs'. rewrite (escaped_site_emit s' n Hs'). now apply escape_off_table.
 Qed.
 
+(* membership of the filtered lists, as closed finite checks (the kernel must never evaluate [filter] lazily) *)
+Lemma unreserved_table :
+  forallb (fun k => mem k RUST_KEYWORDS && legal_incan_ident k) UNRESERVED_RUST_KEYWORDS = true.
+Proof. vm_compute; reflexivity. Qed.
+
+Lemma not_rawable_table :
+  forallb (fun k => mem k NOT_RAW && legal_incan_ident k) NOT_RAWABLE_LEGAL = true.
+Proof. vm_compute; reflexivity. Qed.
+
 (* generic lifting of a nested finite check (no table is unfolded here) *)
 Lemma forallb_implb_forallb : forall (A B : Type) (P : A -> bool) (Q : A -> B -> bool) la lb,
   forallb (fun a => implb (P a) (forallb (Q a) lb)) la = true ->
@@ -332,7 +334,8 @@ Proof.
   apply andb_true_iff in F. destruct F as [F1 F2]. apply negb_true_iff in F2.
   split; [exact F1|]. split; [|exact F2].
   unfold Known_C13_rust_keyword. rewrite F1, andb_true_r.
-  apply filter_In in Hk. destruct Hk as [Hk _]. apply mem_In. exact Hk.
+  pose proof unreserved_table as T. rewrite forallb_forall in T. specialize (T k Hk).
+  apply andb_true_iff in T. destruct T as [T _]. exact T.
 Qed.
 
 Lemma not_rawable_refuted : forall s, In s SITES -> escaped_site s || unescaped_site s = true ->
@@ -346,13 +349,14 @@ Proof.
   apply andb_true_iff in F. destruct F as [F1 F2]. apply negb_true_iff in F2.
   split; [exact F1|]. split; [|exact F2].
   unfold Known_C13_not_rawable. rewrite F1, andb_true_r.
-  apply filter_In in Hk. destruct Hk as [Hk _]. apply mem_In. exact Hk.
+  pose proof not_rawable_table as T. rewrite forallb_forall in T. specialize (T k Hk).
+  apply andb_true_iff in T. destruct T as [T _]. exact T.
 Qed.
 
 Lemma sites_classified : forall s, In s SITES ->
   escaped_site s = true \/ prefixed_site s = true \/ unescaped_site s = true.
 Proof.
-  intros s Hin. pose proof sites_understood as F. unfold sites_understood_b in F.
+  intros s Hin. pose proof sites_understood as F.
   rewrite forallb_forall in F. specialize (F s Hin). unfold understood_site in F.
   apply orb_true_iff in F. destruct F as [F|F]; [apply orb_true_iff in F; tauto | tauto].
 Qed.
@@ -395,4 +399,13 @@ Proof.
   - intros sn Hin. unfold rename in Hin. apply in_map_iff in Hin. destruct Hin as (x & <- & Hx). simpl. now apply He.
   - intros sn Hin. unfold rename in Hin. apply in_map_iff in Hin. destruct Hin as (x & <- & Hx). simpl.
     apply Hrho. now apply Hl.
+Qed.
+
+(* ------------------------------------------------------------------ constructor-vs-call by capitalisation *)
+
+Lemma call_shape_function : forall n npos,
+  call_shape false n npos = if Known_C13_capitalised_function n npos then 1 else 0.
+Proof.
+  intros n npos. unfold call_shape, Known_C13_capitalised_function. simpl orb.
+  destruct (looks_like_constructor n); destruct npos; reflexivity.
 Qed.
